@@ -175,3 +175,37 @@ package tuf
 //@ func ext:(internal/tuf.GitHubApp).GetPrincipalIDs -> (ids)
 //@   trusted
 //@   pure
+
+//@ # ---- C06 / C10: what "a rule matches a path" means: some pattern of the rule fnmatch-es the path, verbatim ----
+//@ spec fnm(pattern string, s string) bool
+//@ func ext:github.com/danwakefield/fnmatch.Match -> (m)
+//@   trusted
+//@   pure
+//@   ensures flags == 0 ==> m == fnm(pattern, s)
+
+//@ # propagation directives as immutable values
+//@ spec pdUpRepo(d PropagationDirective) string
+//@ spec pdUpRef(d PropagationDirective) string
+//@ spec pdUpPath(d PropagationDirective) string
+//@ spec pdDownRef(d PropagationDirective) string
+//@ spec pdDownPath(d PropagationDirective) string
+//@ func ext:(internal/tuf.PropagationDirective).GetUpstreamRepository -> (s)
+//@   trusted
+//@   pure
+//@   ensures s == pdUpRepo(self)
+//@ func ext:(internal/tuf.PropagationDirective).GetUpstreamReference -> (s)
+//@   trusted
+//@   pure
+//@   ensures s == pdUpRef(self)
+//@ func ext:(internal/tuf.PropagationDirective).GetUpstreamPath -> (s)
+//@   trusted
+//@   pure
+//@   ensures s == pdUpPath(self)
+//@ func ext:(internal/tuf.PropagationDirective).GetDownstreamReference -> (s)
+//@   trusted
+//@   pure
+//@   ensures s == pdDownRef(self)
+//@ func ext:(internal/tuf.PropagationDirective).GetDownstreamPath -> (s)
+//@   trusted
+//@   pure
+//@   ensures s == pdDownPath(self)
